@@ -41,9 +41,13 @@ def main():
     slug = os.path.basename(seed)
     res = {"confirmed_at": time.strftime("%Y-%m-%d %H:%M:%S"), "steps": []}
     sh("git checkout -- . && git clean -fdq include", cwd=wt)
+    sh("git checkout -q --detach main", cwd=wt)          # the library's current HEAD (fix: commits land while seeders work)
+    res["tree"] = sh("git log --format=%h -1", cwd=wt)[1].strip()
     rc0, o0 = run_demo(seed, wt, "clean")
     res["demo_on_unchanged_tree"] = {"exit": rc0, "tail": o0}
     rc, o = sh("git apply %s" % os.path.join(seed, "patch.diff"), cwd=wt)
+    if rc != 0: rc, o = sh("git apply -3 %s" % os.path.join(seed, "patch.diff"), cwd=wt)
+    if rc != 0: rc, o = sh("patch -p1 -s < %s" % os.path.join(seed, "patch.diff"), cwd=wt)
     if rc != 0:
         print("patch does not apply:", o); res["error"] = "patch does not apply"; rc1 = None
     else:
